@@ -27,7 +27,7 @@ MANIFEST = dict(
          "the 1-, 3- and n-argument analogues with bang/splat/./then/section forms (any hole layout); PartialApp1/2/Last, Flip, Composition unfold "
          "to the call they abbreviate; fuel only ever turns OutOfFuel into the answer. The model is tied to /repo on every run by (b) an exhaustive "
          "sweep of Builtin::run vs run1/run2 (and f(y)(x) vs f(x,y)) over all ~290 non-I/O global functions x all 1- and 2-tuples of a 29-value pool, "
-         "and (a) ~1000 (f,a,b) triples x 16 surface forms through implementation and extracted model.",
+         "and (a) ~1500 (f,a,b) cases x 11-18 surface forms through implementation and extracted model. Known finding `variadic-combinator` (***, &&&, equals: the one-argument call is the unary combinator, not a right section): C04_right_section carries the premise, C04_right_section_refuted is the witness.",
     note="Trusted: Coq kernel; the hand-written model Dispatch/Apply.v (tie to code = the correspondence run, i.e. differential testing); "
          "extraction + OCaml runner; Rust harness; Python renderer. An opaque builtin's one- and two-argument entry points are DEFINED from its "
          "vector entry point in the model: per-builtin agreement of the ~45 hand-written run1/run2 overrides is established by sweep (b) only, "
